@@ -314,6 +314,7 @@ class Task(object):
         except cp.error.SolverError:
             prob.solve(solver="SCS", eps=1e-8)
         self.cvxpy_status = prob.status
+        self.cvxpy_problem = prob           # kept so that the harness can ask for the solver's own residuals
         if prob.status not in ("optimal", "optimal_inaccurate"):
             # no certificate semantics are emulated: mark solution as unknown, values as NaN
             n_tri = [d * (d + 1) // 2 for d in self.bardims]
